@@ -138,7 +138,10 @@ pub fn k_c21_validate_trace_length_iff_fits() {
     let kind = vs::any_u8();
     vs::assume(kind < 3);
     let a = if kind == 0 {
-        vs::assume(first < usize::MAX);
+        // steps >= 2^63 fit no trace; for them the error path evaluates (first + 1).next_power_of_two(),
+        // whose std-internal overflow check exists in Kani's build of std but not in the shipped std
+        // (natively it returns 0 and validation still answers Err): excluded, see DESIGN.md "false alarms"
+        vs::assume(first < (1usize << 63));
         Assertion::single(column, first, F::ONE)
     } else if kind == 1 {
         vs::assume(first < stride);
